@@ -97,6 +97,15 @@ theorem readElem_refines (e : Elem) (s : σ) (hs : I s) : Agree I ab (readElem R
   · exact readInt_refines h 8 s hs
   · exact readInt_refines h 16 s hs
   · exact readUsize_refines h s hs
+  · exact agree_ret _ hs rfl
+  · refine agree_andThen (readBool_refines h s hs) ?_
+    intro b s1 l1 hi1 ha1
+    cases b
+    · exact agree_ret _ hi1 ha1
+    · exact agree_andThen (ha1 ▸ h.readU8 s1 hi1) (fun v s' l' hi ha => agree_ret _ hi ha)
+  · refine agree_andThen (h.readU8 s hs) ?_
+    intro a s1 l1 hi1 ha1
+    exact agree_andThen (ha1 ▸ readInt_refines h 2 s1 hi1) (fun b s' l' hi ha => agree_ret _ hi ha)
 
 theorem readMany_refines (e : Elem) : ∀ (n : Nat) (s : σ), I s →
     Agree I ab (readMany R e n s) (readMany Mem e n (ab s))
